@@ -110,6 +110,11 @@ func verdictAt(v map[string][]string, pos string, what string) string {
 	// string <-> slice conversions of a non-constant operand: "does not escape" only means the runtime may
 	// use its 32-byte stack buffer; a longer operand is copied to the heap all the same.  They count as
 	// allocating unless the compiler says it elided the copy altogether ("zero-copy ... conversion").
+	if what == "string concatenation" || what == "map literal" {
+		// the same holds for concatenation (32-byte temporary buffer) and for maps (more than one bucket
+		// is heap-allocated whatever the escape verdict)
+		return "heap"
+	}
 	if what == "string->slice conversion" || what == "slice->string conversion" {
 		for _, m := range msgs {
 			if strings.Contains(m, "zero-copy") {
@@ -457,7 +462,26 @@ func analyse(fs *fsum, fd *ast.FuncDecl, info *types.Info, fset *token.FileSet, 
 			if id, ok := x.Fun.(*ast.Ident); ok {
 				if _, isB := info.Uses[id].(*types.Builtin); isB {
 					switch id.Name {
-					case "make", "new", "append":
+					case "make":
+						// a map / channel, or a slice whose size is not a constant, is heap-allocated whatever the
+						// escape verdict says
+						what := "make"
+						if len(x.Args) > 0 {
+							if tv, ok := info.Types[x.Args[0]]; ok {
+								switch tv.Type.Underlying().(type) {
+								case *types.Map, *types.Chan:
+									what = "map literal"
+								case *types.Slice:
+									for _, a := range x.Args[1:] {
+										if info.Types[a].Value == nil {
+											what = "map literal" // classified with the always-heap constructs
+										}
+									}
+								}
+							}
+						}
+						alloc(what, x)
+					case "new", "append":
 						alloc(id.Name, x)
 					case "copy":
 						if len(x.Args) > 0 {
